@@ -383,12 +383,16 @@ func c14CtlRun(cfg *C14CtlCfg, ch vs.Chooser, trace bool) (*Outcome, *vs.Result)
 			viol("lock-left-held", "the controller lock is still held after %s", out.Obs)
 			return
 		}
-		for _, p := range []string{"vols", "reps"} {
+		probes := []string{"vols", "reps"}
+		if cfg.Init == "rw2" {
+			probes = append(probes, "err2") // a mode change of the replica the adds were about (fatal on a duplicate entry)
+		}
+		for _, p := range probes {
 			p := p
 			done, code := false, 0
 			vs.Go("probe-"+p, func() { code = serve(p); done = true })
 			vs.Quiesce(0)
-			if !done || code != 200 {
+			if !done || (code != 200 && !(p == "err2" && code == 404)) {
 				viol("probe-not-served", "probe %s after %s: returned=%v status=%d", p, out.Obs, done, code)
 				return
 			}
@@ -423,6 +427,8 @@ func c14CtlConfigs(tier string) []C14CtlCfg {
 	for _, same := range []string{"snap", "del1", "err1", "delsnap"} {
 		out = append(out, C14CtlCfg{Name: "ctl-overlap", Init: "rw3", Reqs: []string{same, same}})
 	}
+	out = append(out, C14CtlCfg{Name: "ctl-overlap", Init: "rw2", Reqs: []string{"add2", "add2"}})
+	out = append(out, C14CtlCfg{Name: "ctl-overlap", Init: "rw2", Reqs: []string{"reg3", "reg3"}})
 	if tier == "thorough" {
 		for _, t := range [][]string{{"vols", "del1", "err2"}, {"stats", "snap", "del1"}, {"reps", "delsnapbad", "snap"}} {
 			out = append(out, C14CtlCfg{Name: "ctl-overlap", Init: "rw3", Reqs: t})
